@@ -225,6 +225,16 @@ def add_random_connects(rng, d, b, n):
         break
   return added
 
+def force_sibling_net(rng, d, b):
+  """for the 'one block writes a struct and one of its fields' shape: a net driven by a sibling field of the re-written field"""
+  if 'blk-parent+field' not in d.features: return 0
+  h, st = [(h, st) for h, st in d.blocks() if len(st[4]) == 2 and st[4][0][0].sig is st[4][1][0].sig and st[4][0][0].chain == []][-1]
+  e1 = st[4][1][0]; x = e1.sig
+  sibs = [q for q in parts(x) if q[0] != '' and not (q[2] < e1.hi and e1.lo < q[3])]
+  if not sibs: return 0
+  q = rng.choice(sibs)
+  return b.add_net(force_writer=EP(x, q[0], q[1], q[2], q[3], q[4]))
+
 def gen_design(rng, name, mode):
   d = ec.gen_hierarchy(rng, name)
   b = Builder(rng, d)
@@ -238,7 +248,7 @@ def gen_design(rng, name, mode):
     if r < 0.08: special = 'parent+field'
     b.add_blocks(special)
     want = rng.choice([1, 2, 3, 5, 8, 12, 20, 30])
-    n = 0
+    n = force_sibling_net(rng, d, b)
     for _ in range(40):
       if n >= want: break
       n += b.add_net(overlap_readers=(0.08 <= r < 0.14))
@@ -362,7 +372,7 @@ def run(ctx):
     outcomes = []
     first_ok = None
     seen_orders = set()
-    K = rng.randrange(*nvar)
+    K = rng.randrange(*nvar) if 'blk-parent+field' not in d.features else 40
     for v in range(K):
       orders, flips = (None, None) if v == 0 else d.variant(rng)
       src = d.source(orders=orders, flips=flips)
@@ -442,3 +452,30 @@ def main(ctx):
   return ctx.finish(rule='random hierarchies (1-3 levels; Bits4/8/16, Pt, Outer signals; whole signals, slices, struct fields, nested fields, constants; 1-30 connects incl. child ports; update blocks) '
                          'in three modes: constructively legal, legal + 1-2 random extra connects, wild random connects; each under 10-20 statement permutations x side flips x connect()/"//=" syntax; '
                          'distinct = (design, variant) with >= 2 connects')
+
+def replay(ctx, r):
+  """./check C08 --replay f : re-elaborate the stored design(s); for net-value findings re-simulate"""
+  seen = ec.replay_sources(ctx, r)
+  rp = r.get('replay', {})
+  rc = 0
+  allo = set()
+  for k, o in seen.items():
+    allo |= set(o)
+  if len(allo) > 1: print('REPRODUCED: the same statements give different outcomes:', sorted(allo)); rc = 1
+  if 'net_writer' in rp and 'design_source' in rp:
+    import re
+    from pymtl3.passes.PassGroups import DefaultPassGroup
+    import sched_common as sc
+    src = rp['design_source']; clsname = re.findall(r'class (Top_\w+)\(', src)[-1]
+    res = ec.elaborate_src(ctx.scratch, src, clsname, keep=True)
+    if res[0] == 'ok':
+      top = res[2]; top.apply(DefaultPassGroup()); top.sim_reset()
+      for n, v in rp.get('inputs', {}).items(): sc.set_input(top, n, v)
+      top.sim_eval_combinational()
+      w = rp['net_writer']
+      wv = int(w.split('(0x')[1].rstrip(')'), 16) if w.startswith('Bits') else ec.sim_value(top, w)
+      bad = [(m, ec.sim_value(top, m)) for m in rp['net_members'] if not m.startswith('Bits') and ec.sim_value(top, m) != wv]
+      print(f'writer {w} = {wv:#x}; members that differ: {bad}')
+      if bad: print('REPRODUCED: a member of the net does not carry the writer\'s value'); rc = 1
+  shutil.rmtree(ctx.scratch, ignore_errors=True)
+  return rc
